@@ -6,6 +6,7 @@
 -/
 import XotModel.Lemmas.FinvComposite
 import XotModel.Lemmas.FspecUnwrap
+import XotModel.Lemmas.FatomComposite
 
 namespace XotModel
 open HTree Spec
@@ -188,6 +189,48 @@ theorem unwrapSites_simpl {f : Forest} (hi : f.Inv) (n : Nat) :
             | cons a r => rw [hd] at hfc; simp at hfc
           · rfl
     rw [this]; simp
+
+/-! ### `replaceSites` without the guard site -/
+
+/-- `replaceSites` with the plain `insertAfterSites`: the site of the guard `hT4` of `vstep_insertAfter` (the previous
+    sibling of `b` when the reference node is `b` itself) is dropped. -/
+def replaceSites0 (f : Forest) (a b : Nat) : List Nat :=
+  match f.parent? a with
+  | none => []
+  | some parent =>
+    if (f.prevSibling a == some b || f.nextSibling a == some b) = true then (f.prevSibling a).toList else
+    match f.prevSibling a with
+    | none => (f.dropSubtree a).prependSites parent b
+    | some p => (f.dropSubtree a).insertAfterSites p b ++
+        (match f.nextSibling a with
+         | some n => (((f.dropSubtree a).insertAfter p b).1.prevSibling n).toList
+         | none => [])
+
+/-- With the subtree `a` taken out the forest still has distinct handles (`Forest.W`), so no node is its own previous
+    sibling and the reference node of the `insert_after` is never `b`: the guard site is empty. -/
+theorem replaceSites_simpl {f : Forest} (hi : f.Inv) (a b : Nat) : f.replaceSites a b = f.replaceSites0 a b := by
+  unfold replaceSites replaceSites0
+  cases f.parent? a with
+  | none => rfl
+  | some parent =>
+    simp only
+    split
+    · rfl
+    · rename_i hadj
+      cases hps : f.prevSibling a with
+      | none => rfl
+      | some p =>
+        simp only
+        have hne : p ≠ b := by
+          intro e
+          apply hadj
+          rw [hps, e]
+          simp
+        have w := (dropSubtree_spec hi.toW a).1
+        unfold insertAfterSitesX
+        rw [if_neg (insertAfterRef_ne w hne)]
+        simp only [List.append_nil]
+        cases f.nextSibling a <;> rfl
 
 end Forest
 end XotModel
